@@ -90,6 +90,12 @@ func runScenario(c scenario, scale int) *rp.Fail {
 			}
 		}()
 	}
+	switch c.Kind {
+	case "port-released":
+		return runPortReleased(c, scale)
+	case "send-fails":
+		return runSendFails(c, scale)
+	}
 	u := hook.Real(cfg)
 	t0 := time.Now()
 	started <- t0
@@ -117,8 +123,123 @@ func runScenario(c scenario, scale int) *rp.Fail {
 	return nil
 }
 
+// port-released: the fixed bind port is held by a socket OUTSIDE the library when the call starts and is released at
+// ReplyPct % of the timeout. Whatever the call makes of the busy port (today: an immediate 'address in use' error), the
+// timeout still bounds the whole call; nobody answers.
+func runPortReleased(c scenario, scale int) *rp.Fail {
+	T := time.Duration(c.TimeoutMs*scale) * time.Millisecond
+	bindIP := [4]byte{127, 0, 0, 1}
+	port, err := farm.FreePort(bindIP)
+	if err != nil {
+		return nil
+	}
+	f := farm.New()
+	defer f.Close()
+	silent, err := f.UDP([4]byte{127, 0, 8, 4}, 0, nil)
+	if err != nil {
+		return nil
+	}
+	hu, err1 := net.ListenUDP("udp4", &net.UDPAddr{IP: net.IP(bindIP[:]), Port: int(port)})
+	ht, err2 := net.ListenTCP("tcp4", &net.TCPAddr{IP: net.IP(bindIP[:]), Port: int(port)})
+	if err1 != nil || err2 != nil {
+		return nil
+	}
+	release := time.AfterFunc(T*time.Duration(c.ReplyPct)/100, func() { hu.Close(); ht.Close() })
+	defer release.Stop()
+	defer hu.Close()
+	defer ht.Close()
+	serial := uint32(405419896)
+	cfg := hook.ClientCfg{TimeoutMs: int(T / time.Millisecond), BindIP: bindIP, BindPort: port, Debug: c.Debug, HasBroadcast: true, BroadcastIP: [4]byte{127, 0, 8, 4}, BroadcastPort: silent.Addr.Port()}
+	if c.Op != "GetDevices" && c.Op != "OpenDoor" {
+		cfg.Devices = []hook.DeviceCfg{{Serial: serial, HasAddr: true, IP: [4]byte{127, 0, 8, 4}, Port: silent.Addr.Port(), Protocol: "udp"}}
+	}
+	u := hook.Real(cfg)
+	t0 := time.Now()
+	done := make(chan api.Result, 1)
+	go func() {
+		if c.Op == "GetDevices" {
+			var r api.Result
+			func() {
+				defer func() { r.Panic = recover() }()
+				_, r.Err = u.GetDevices()
+			}()
+			done <- r
+			return
+		}
+		done <- api.Invoke(u, call(c.Op, serial))
+	}()
+	select {
+	case res := <-done:
+		elapsed := time.Since(t0)
+		if res.Panic != nil {
+			return rp.Failf("port-released/panic", "%s panicked: %v", c.Op, res.Panic)
+		}
+		if elapsed > T+T/4+200*time.Millisecond {
+			return rp.Failf("port-released/overrun", "%s returned after %v; the timeout is %v (the fixed bind port was held by another socket for the first %d%% of it)", c.Op, elapsed, T, c.ReplyPct)
+		}
+		if res.Err == nil && c.Op != "GetDevices" {
+			return rp.Failf("port-released/success-without-reply", "%s succeeded although nobody answered", c.Op)
+		}
+	case <-time.After(2*T + 6*time.Second):
+		return rp.Failf("port-released/hang", "%s has not returned (timeout %v)", c.Op, T)
+	}
+	return nil
+}
+
+// send-fails: three clients share one fixed bind port. The first one's request cannot be sent (its broadcast address has
+// port 0); the calls of the other two, made right afterwards, must still reach their controllers and succeed, and no socket
+// may be left behind.
+func runSendFails(c scenario, scale int) *rp.Fail {
+	T := time.Duration(c.TimeoutMs*scale) * time.Millisecond
+	f := farm.New()
+	defer f.Close()
+	answer := farm.Script(func(r farm.Received) []farm.Action { return []farm.Action{{Data: reply(r.Data)}} })
+	ctrl, err := f.UDP([4]byte{127, 0, 8, 5}, 0, answer)
+	bc, err2 := f.UDP([4]byte{127, 0, 8, 6}, 0, answer)
+	port, err3 := farm.FreePort([4]byte{127, 0, 0, 1})
+	if err != nil || err2 != nil || err3 != nil {
+		return nil
+	}
+	base := hook.ClientCfg{TimeoutMs: int(T / time.Millisecond), BindIP: [4]byte{127, 0, 0, 1}, BindPort: port, Debug: c.Debug}
+	bad := base
+	bad.HasBroadcast, bad.BroadcastIP, bad.BroadcastPort = true, [4]byte{127, 0, 8, 6}, 0
+	direct := base
+	direct.Devices = []hook.DeviceCfg{{Serial: 1001, HasAddr: true, IP: [4]byte{127, 0, 8, 5}, Port: ctrl.Addr.Port(), Protocol: "udp"}}
+	bcast := base
+	bcast.HasBroadcast, bcast.BroadcastIP, bcast.BroadcastPort = true, [4]byte{127, 0, 8, 6}, bc.Addr.Port()
+	before := farm.Sockets()
+	ub, ud, uc := hook.Real(bad), hook.Real(direct), hook.Real(bcast)
+	for round := 0; round < 2; round++ {
+		if c.Op == "GetDevices" {
+			func() {
+				defer func() { recover() }()
+				ub.GetDevices()
+			}()
+		} else {
+			api.Invoke(ub, call(c.Op, 1003))
+		}
+		if res := api.Invoke(ud, call("GetTime", 1001)); res.Panic != nil || res.Err != nil {
+			return rp.Failf("send-fails/call-failed/udp", "after another client's request on the same bind port could not be sent, GetTime (directed UDP, controller answers at once) failed: %v %v", res.Err, res.Panic)
+		}
+		if res := api.Invoke(uc, call("GetStatus", 1002)); res.Panic != nil || res.Err != nil {
+			return rp.Failf("send-fails/call-failed/broadcast", "after another client's request on the same bind port could not be sent, GetStatus (broadcast, controller answers at once) failed: %v %v", res.Err, res.Panic)
+		}
+	}
+	for deadline := time.Now().Add(2 * time.Second); ; time.Sleep(5 * time.Millisecond) {
+		if s := farm.Sockets(); s <= before {
+			return nil
+		} else if time.Now().After(deadline) {
+			return rp.Failf("resources/socket-leak", "%d socket descriptors before the calls, %d after them (one client's send failed each round)", before, s)
+		}
+	}
+}
+
 func checkScenario(c scenario) *rp.Fail {
-	ev.Case(fmt.Sprintf("scenario/%s/reply-%s", c.Kind, map[bool]string{true: "in-time", false: "after-deadline"}[c.ReplyPct <= 80]), true, fmt.Sprintf("%+v", c))
+	if c.Kind == "port-released" || c.Kind == "send-fails" {
+		ev.Case("scenario/"+c.Kind, true, fmt.Sprintf("%+v", c))
+	} else {
+		ev.Case(fmt.Sprintf("scenario/%s/reply-%s", c.Kind, map[bool]string{true: "in-time", false: "after-deadline"}[c.ReplyPct <= 80]), true, fmt.Sprintf("%+v", c))
+	}
 	f := runScenario(c, 1)
 	if f != nil && c.Kind != "slow-connect" { // (the slow connect is governed by the kernel's 1 s retransmission timer and cannot be scaled)
 		if f2 := runScenario(c, 4); f2 == nil {
@@ -144,6 +265,9 @@ func sweepScenarios(yield func(scenario) bool) {
 	for i, op := range []string{"GetTime", "GetStatus", "PutCard", "GetCardByID"} {
 		cases = append(cases, scenario{Kind: "unreachable-then-reply", Op: op, TimeoutMs: 300, ReplyPct: []int{20, 40, 60, 30}[i], Debug: i == 1})
 	}
+	cases = append(cases, scenario{Kind: "port-released", Op: "GetDevices", TimeoutMs: 600, ReplyPct: 90}, scenario{Kind: "port-released", Op: "GetTime", TimeoutMs: 600, ReplyPct: 90},
+		scenario{Kind: "port-released", Op: "OpenDoor", TimeoutMs: 500, ReplyPct: 60, Debug: true},
+		scenario{Kind: "send-fails", Op: "OpenDoor", TimeoutMs: 400}, scenario{Kind: "send-fails", Op: "GetDevices", TimeoutMs: 150})
 	if ev.Thorough() {
 		for _, pct := range []int{125, 140, 70, 75} {
 			cases = append(cases, scenario{Kind: "slow-connect", Op: "GetStatus", TimeoutMs: 1700, ReplyPct: pct})
